@@ -266,6 +266,16 @@ impl tower_resilience_core::EventListener<tower_resilience_hedge::HedgeEvent> fo
 
 // ------------------------------------------------------------------ the thirteen layers
 
+thread_local! {
+    /// transparency variant: 1 = wherever a layer has a natural "unbounded" sentinel
+    /// (`Duration::MAX` = no timeout / never expires / wait for ever) the non-triggering
+    /// configuration uses it instead of a merely large value
+    static UNBOUNDED: std::cell::Cell<bool> = const { std::cell::Cell::new(false) };
+}
+fn unbounded() -> bool {
+    UNBOUNDED.with(|c| c.get())
+}
+
 /// Mode 0: non-triggering configuration (transparency). Mode 1: configuration in which retries,
 /// hedges and reconnects happen (readiness). Mode 2: configuration that produces several kinds of
 /// events (listeners).
@@ -282,6 +292,8 @@ where
             let mut b = BulkheadLayer::builder();
             b = if mode == 2 {
                 b.max_concurrent_calls(1).reject_when_full()
+            } else if mode == 0 && unbounded() {
+                b.max_concurrent_calls(64).max_wait_duration(Duration::MAX)
             } else {
                 b.max_concurrent_calls(64)
             };
@@ -303,7 +315,7 @@ where
             let mut b = RateLimiterLayer::builder()
                 .limit_for_period(if mode == 2 { 2 } else { 1000 })
                 .refresh_period(Duration::from_millis(if mode == 2 { 20 } else { 1000 }))
-                .timeout_duration(Duration::ZERO);
+                .timeout_duration(if mode == 0 && unbounded() { Duration::MAX } else { Duration::ZERO });
             for l in &listeners {
                 let (a, c, d) = (l.clone(), l.clone(), l.clone());
                 b = b
@@ -319,6 +331,11 @@ where
         2 => {
             use tower_resilience_circuitbreaker::{CircuitBreakerError, CircuitBreakerLayer};
             let mut b = CircuitBreakerLayer::builder().name("c20");
+            if mode == 0 && unbounded() {
+                b = b
+                    .wait_duration_in_open(Duration::MAX)
+                    .slow_call_duration_threshold(Duration::MAX);
+            }
             if mode == 2 {
                 b = b
                     .sliding_window_size(2)
@@ -344,7 +361,7 @@ where
             use tower_resilience_retry::RetryLayer;
             let mut b = RetryLayer::<Req, CErr>::builder()
                 .max_attempts(3)
-                .fixed_backoff(Duration::from_millis(1))
+                .fixed_backoff(if mode == 0 && unbounded() { Duration::MAX } else { Duration::from_millis(1) })
                 // a readiness error looks retryable to the predicate: it still has to surface
                 .retry_on(|e: &CErr| matches!(e, CErr::Inner(s) if s.code == RETRY_CODE || s.code == READY_ERR));
             for l in &listeners {
@@ -361,7 +378,11 @@ where
         4 => {
             use tower_resilience_timelimiter::{TimeLimiterError, TimeLimiterLayer};
             let mut b = TimeLimiterLayer::builder()
-                .timeout_duration(Duration::from_millis(if mode == 2 { 20 } else { 10_000 }));
+                .timeout_duration(if mode == 0 && unbounded() {
+                    Duration::MAX
+                } else {
+                    Duration::from_millis(if mode == 2 { 20 } else { 10_000 })
+                });
             for l in &listeners {
                 let (a, c, d) = (l.clone(), l.clone(), l.clone());
                 b = b
@@ -380,6 +401,9 @@ where
             let mut b = CacheLayer::<Req, u32>::builder()
                 .max_size(if mode == 2 { 1 } else { 100 })
                 .key_extractor(move |r: &Req| r.id % modulo);
+            if mode == 0 && unbounded() {
+                b = b.ttl(Duration::MAX);
+            }
             for l in &listeners {
                 let (a, c, d) = (l.clone(), l.clone(), l.clone());
                 b = b
@@ -426,6 +450,7 @@ where
                 _ => 3,
             });
             b = match mode {
+                0 | 3 if unbounded() => b.delay(Duration::MAX),
                 0 | 3 => b.delay(Duration::from_secs(10)),
                 _ => b.delay(Duration::from_millis(3)),
             };
@@ -499,7 +524,7 @@ where
                 .error_fn(|_r: &Req| CErr::Layer("chaos".into()))
                 .latency_rate(lr)
                 .min_latency(Duration::from_millis(1))
-                .max_latency(Duration::from_millis(4))
+                .max_latency(if mode == 0 && unbounded() { Duration::MAX } else { Duration::from_millis(4) })
                 .seed(7);
             for l in &listeners {
                 let (a, c, d) = (l.clone(), l.clone(), l.clone());
@@ -552,6 +577,9 @@ pub enum C20Case {
         /// None = ok, Some(code) = error (never a trigger code)
         err: Option<u8>,
         lat: u8,
+        /// non-triggering configuration written with the "unbounded" sentinels (Duration::MAX)
+        #[serde(default)]
+        unbounded: bool,
     },
     Readiness {
         layer: u8,
@@ -585,14 +613,16 @@ fn case_strategy(_tier: Tier) -> BoxedStrategy<C20Case> {
         any::<u64>(),
         prop_oneof![1 => Just(None), 1 => (1u8..=40).prop_map(Some)],
         0u8..=6,
+        prop::bool::weighted(0.3),
     )
-        .prop_map(|(target, req_id, req_key, req_tag, err, lat)| C20Case::Transparency {
+        .prop_map(|(target, req_id, req_key, req_tag, err, lat, unbounded)| C20Case::Transparency {
             target,
             req_id,
             req_key,
             req_tag,
             err,
             lat,
+            unbounded,
         });
     let readiness = (
         0u8..(13 + STACKS.len() as u8),
@@ -1116,17 +1146,23 @@ pub fn run_case(case: &C20Case) -> Report {
             req_tag,
             err,
             lat,
+            unbounded,
         } => {
             let req = Req {
                 id: *req_id,
                 key: *req_key,
                 tag: *req_tag,
             };
+            UNBOUNDED.with(|c| c.set(*unbounded));
             let (v, log) = sim::run_case(transparency(*target as usize, req, *err, *lat));
+            UNBOUNDED.with(|c| c.set(false));
             for m in v {
                 r.fail(m);
             }
             r.class("transparency");
+            if *unbounded {
+                r.class("transparency_with_unbounded_sentinels");
+            }
             if *target as usize >= 13 {
                 r.class("transparency_stack");
             }
